@@ -65,6 +65,9 @@ type Stmt struct {
 	PreInl []Inline `json:"preinl,omitempty"`
 	// poryswitch statement: V is the switch name
 	PCases []PCase `json:"pcases,omitempty"`
+	// transient: index of the statement's first piece / its source line (set by the renderer / layout)
+	PI   int `json:"-"`
+	Line int `json:"-"`
 }
 
 // PCase is one case of a poryswitch statement.
@@ -202,7 +205,7 @@ func (fl *flattener) stmt(s *Stmt, par int, script int) int {
 		}
 		return id
 	case "break", "continue":
-		return fl.newN(FNode{"k": s.K, "par": par, "nxt": 0})
+		return fl.newN(FNode{"k": s.K, "par": par, "nxt": 0, "line": s.Line})
 	case "if":
 		id := fl.newN(FNode{"k": "if", "par": par, "nxt": 0, "els": 0})
 		arms := []FNode{}
